@@ -341,10 +341,12 @@ func writeAtomically(b []byte, filename string) error {
 	if _, err := tempFile.Write(b); err != nil {
 		return fmt.Errorf("%s: %w", filename, err)
 	}
-	if info, err := os.Stat(filename); err == nil {
-		if err := tempFile.Chmod(info.Mode().Perm()); err != nil {
-			return fmt.Errorf("%s: %w", filename, err)
-		}
+	info, err := os.Stat(filename)
+	if err != nil {
+		return fmt.Errorf("%s: %w", filename, err)
+	}
+	if err := tempFile.Chmod(info.Mode().Perm()); err != nil {
+		return fmt.Errorf("%s: %w", filename, err)
 	}
 	if err := tempFile.Close(); err != nil {
 		return fmt.Errorf("%s: %w", filename, err)
